@@ -136,7 +136,7 @@ reg("C15",
     "one with a setup node and an indexed use} x {DAG, AsyncDAG}, each followed by the probes call(p3), executor()(p3,p4) (and a probe of the original of a copy). Oracle: every operation and every probe is checked against the reference "
     "for ITS OWN arguments (entered nodes, received arguments, returned tokens); dag.results may only gain setup results; an executed executor refuses to run again; an executor whose run failed either refuses or runs its complete selection. "
     "states = operations executed. non-trivial = histories with >= 1 operation before the probe",
-    "depth <= 2 (all), depth 3 restricted to histories containing a failing operation and an executor run", "depth <= 3 (all)", HIST_ASSUME)
+    "depth <= 3 (all; depth 3 in the DAG flavour only)", "depth <= 3 (all, both flavours), depth 4 restricted to histories containing a failing operation and an executor run / compose / copy", HIST_ASSUME)
 
 reg("C18",
     "all labelled shapes x {no DAG argument, roots take a DAG argument} x caching run {whole DAG, each single target, cache_deps_of=[n] for each n} x restart run {same selection, whole DAG, cache_deps_of=[n] for each n (thorough: each single target)} "
